@@ -3,6 +3,10 @@
    Client.RunHandlers (handler.go).  Mirrors /repo as it is NOW: DecodeCTCP rejects an
    empty command (`s == 0`), the default repliers return when the source is nil.
 
+   Since fcf34ee CTCP.call looks both handlers up under the table lock and runs them
+   after releasing it (same outputs; handlers here are pure), since 187fc3e
+   handleCTCPFinger answers nothing when client.conn is nil.
+
    Indexing and slicing are checked (Go's bounds rule), nil dereferences and the
    explicit panic of SendCTCPReply are `Panic`.  What an event handler "does" is the
    list of events it hands to Client.Send, in order; the default repliers are
@@ -164,8 +168,8 @@ Definition handle_time (v : env) : handler :=
 Definition idle_sep : str := Eval vm_compute in bs " -- idle ".
 Definition handle_finger (v : env) : handler :=
   replier (fun name c =>
-    (* client.conn.mu.RLock(): nil dereference when disconnected *)
-    if negb (connected v) then Panic else
+    (* since 187fc3e: `if client.conn == nil { return }` under Client.mu *)
+    if negb (connected v) then Ok [] else
     one (send_ctcp_reply (source_id name) CTCP_FINGER (cfg_name v ++ idle_sep ++ idle_text v))).
 
 (* ---- the handler table and CTCP.call --------------------------------- *)
@@ -210,6 +214,20 @@ Definition ctcp_stage (t : table) (e : event) : res (list event) :=
   | None => Ok []
   | Some c => ctcp_call t c
   end.
+
+(* ---- RunHandlers: the stages and their copies -------------------------- *)
+
+(* An ordinary handler (Handlers.Add / AddBg on the command or on ALL_EVENTS) is handed an
+   Event of its own: RunHandlers passes event.Copy() to every exec() and DecodeCTCP gets
+   another event.Copy().  A handler may rewrite the event it was given (Source, Params,
+   Tags) - the first component of its result - and hand events to Client.Send - the second.
+   What it rewrote is dropped: the CTCP stage decodes the event as it was received. *)
+Definition ev_handler := event -> event * list event.
+
+Definition run_handlers (hs : list ev_handler) (t : table) (e : event) : res (list event) :=
+  let outs := flat_map (fun h => snd (h e)) hs in
+  c <- ctcp_stage t e ;;
+  Ok (outs ++ c).
 
 (* ---- registering handlers: parseCMD, Set/SetBg, Clear, ClearAll ------- *)
 
